@@ -10,6 +10,7 @@ import (
 	"encoding/hex"
 	"errors"
 	"fmt"
+	"github.com/notaryproject/notation-core-go/revocation"
 	"math/rand/v2"
 	"strings"
 	"time"
@@ -81,6 +82,7 @@ func (c05) Gen(r *rand.Rand, tier string, idx int) *core.Plan {
 	w["base"] = int64(r.IntN(3))       // strict / permissive / audit as the level the revocation action overrides
 	w["ctor"] = int64(r.IntN(2))       // NewVerifierWithOptions / the deprecated NewWithOptions
 	w["nosubj"] = int64(r.IntN(5) / 4) // the signing certificate has an empty subject name
+	w["rival"] = int64(r.IntN(2))
 	if r.IntN(12) == 0 {
 		p.Faults = append(p.Faults, rt.Fault{Task: 0, Op: "revocation.validate", Nth: r.IntN(int(w["rounds"])), Kind: "EIO"})
 	}
@@ -307,6 +309,50 @@ func (l c05) Exec(env *core.Env) *core.Result {
 				res.Probe("verification_failed_although_revocation_is_logged") // what a logged failure does to the verdict is C02's statement
 			}
 
+		}
+		if w["rival"] == 1 && w["scheme"] == 1 && action != "skip" && w["plugin"] != 1 {
+			// Before the rounds: another goroutine of the host verifies, on the same verifier, ANOTHER signature of the
+			// same chain - made an hour earlier, when (says the validator) every certificate was still good - and is
+			// already inside the validator when the verification under study begins. The validator reports the leaf
+			// revoked as of THIS signature's signing time: this verification fails revocation whatever the other finds.
+			early := signedAt.Add(-time.Hour)
+			so2 := so
+			so2.SigningTime = early
+			if rivalSig, rerr := world.SignPayload(chain, world.PayloadFor(desc), so2); rerr == nil {
+				revoked := make([]revresult.Result, n)
+				for i := range revoked {
+					revoked[i] = revresult.ResultOK
+				}
+				revoked[0] = revresult.ResultRevoked
+				good := make([]revresult.Result, n)
+				for i := range good {
+					good[i] = revresult.ResultOK
+				}
+				val.Results, val.Err, val.ErrWithResults, val.Short = nil, nil, false, 0
+				val.AnswerFor = func(o revocation.ValidateContextOptions) []revresult.Result {
+					if o.AuthenticSigningTime.Equal(early.Truncate(time.Second)) {
+						return good
+					}
+					return revoked
+				}
+				g := &rivalGate{}
+				val.Gate = g.hold
+				var o2 *notation.VerificationOutcome
+				concurrently(sim, g, func() { verifyEntry(ctx, v, entryOf(w), desc, rivalSig, format) },
+					func() { o2, _ = verifyEntry(ctx, v, entryOf(w), desc, sig, format) })
+				val.Gate, val.AnswerFor = nil, nil
+				res.Probe("verified_while_a_neighbour_verification_of_the_same_chain_was_in_flight")
+				if o2 != nil {
+					for _, r := range o2.VerificationResults {
+						if string(r.Type) == "revocation" && r.Error == nil {
+							res.Violate("C05/non-ok-certificate-treated-as-ok", fmt.Sprintf("n=%d action=%s legacy=%d entry=%d | neighbour verification of the same chain in flight", n, action, w["legacy"], w["entry"]),
+								"the validator reports the signing certificate revoked as of this signature's signing time, but the revocation result carries no error (another verification of the same chain, with an earlier signing time, was in flight)")
+						}
+					}
+				}
+				val.Calls, val.Legacy, val.Faulted = nil, 0, nil
+				res.Nontrivial = true
+			}
 		}
 		rounds := int(w["rounds"])
 		if rounds < 1 {
